@@ -578,7 +578,8 @@ def split_case(draw, tier="quick"):
     return case
 
 
-_DIR_TRAINERS = tuple(t for t in ALL if t != HOMEO)
+# modulated rules appear twice: they have the extra scalar / per-sample reward dimension to cover
+_DIR_TRAINERS = tuple(t for t in ALL if t != HOMEO) + MODULATED
 
 
 @st.composite
@@ -659,7 +660,7 @@ LEGS = [
         name="direction",
         run=run_direction,
         strategy=lambda tier: direction_case(tier),
-        quick=160, thorough=1600, quick_shards=8, thorough_shards=16, nt_floor=0.5,
+        quick=260, thorough=2000, quick_shards=8, thorough_shards=16, nt_floor=0.5,
         rule="causal / anti: the parameter moved (every synapse of sample 0 has a pair); reward: the "
              "update being negated is non-zero; rate: always (rates strictly above / below target)",
     ),
